@@ -461,6 +461,7 @@ spif_socket_send(spif_socket_t self, spif_str_t data)
 {
     size_t len;
     int num_written;
+    spif_charptr_t buff;
     struct timeval tv = { 0, 0 };
 
     ASSERT_RVAL(!SPIF_SOCKET_ISNULL(self), FALSE);
@@ -469,16 +470,24 @@ spif_socket_send(spif_socket_t self, spif_str_t data)
     len = spif_str_get_len(data);
     REQUIRE_RVAL(len > 0, FALSE);
 
-    num_written = write(self->fd, SPIF_STR_STR(data), len);
-    for (; (num_written < 0) && ((errno == EAGAIN) || (errno == EINTR)); ) {
-        tv.tv_usec += 10000;
-        if (tv.tv_usec == 1000000) {
-            tv.tv_usec = 0;
-            tv.tv_sec++;
+    buff = SPIF_CHARPTR(SPIF_STR_STR(data));
+    do {
+        num_written = write(self->fd, buff, len);
+        for (; (num_written < 0) && ((errno == EAGAIN) || (errno == EINTR)); ) {
+            tv.tv_usec += 10000;
+            if (tv.tv_usec == 1000000) {
+                tv.tv_usec = 0;
+                tv.tv_sec++;
+            }
+            select(0, NULL, NULL, NULL, &tv);
+            num_written = write(self->fd, buff, len);
         }
-        select(0, NULL, NULL, NULL, &tv);
-        num_written = write(self->fd, SPIF_STR_STR(data), len);
-    }
+        if (num_written > 0) {
+            /* The kernel may accept only part of the data.  Keep going until it has all of it. */
+            buff += num_written;
+            len -= num_written;
+        }
+    } while ((num_written > 0) && (len > 0));
     if (num_written < 0) {
         D_OBJ(("Unable to write to socket %d -- %s\n", self->fd, strerror(errno)));
         switch (errno) {
@@ -489,7 +498,7 @@ spif_socket_send(spif_socket_t self, spif_str_t data)
                     spif_charptr_t s;
                     long left;
 
-                    for (left = len, s = SPIF_CHARPTR(SPIF_STR_STR(data)); left > 0; s += 1024, left -= 1024) {
+                    for (left = len, s = buff; left > 0; s += 1024, left -= 1024) {
                         tmp_buf = spif_str_new_from_buff(s, 1024);
                         b = spif_socket_send(self, tmp_buf);
                         if (b == FALSE) {
